@@ -363,4 +363,162 @@ Proof.
   rewrite (ip_nth_map_seq (fun i => (kn knots (i + d + 1) - kn knots i) * (1 / sp_ofnat F K (S d)))) by exact Hj. reflexivity.
 Qed.
 
+
+(* ---------------------------------------------------------------------------------------- *)
+(** * general spaces (clamped AND periodic, repaired code): the stored integrals sum to the length of the domain
+
+    Every piece is  c_i (u_i - l_i),  c_i = (t_{i+p+1} - t_i)/(p+1) = xi_{i+1} - xi_i  (xi = Greville abscissae of degree
+    p+1 on the extended knots),  l_i = sum_{k > i} M_k(a),  u_i = sum_{k > i} M_k(b)  (M = B-splines of degree p+1; the
+    cumulated values 0 / 1 returned at interior bounds are these sums, because the other M_k vanish there).  Summation by
+    parts and the Greville identity at a and at b give  sum_i c_i (u_i - l_i) = (b - xi_0) - (a - xi_0) = b - a. *)
+
+Definition ip_simple_breaks (knots : list F) (d : nat) : Prop :=
+  sp_sorted F K knots /\ (2 * d + 1 < length knots)%nat /\
+  (forall j, (d <= j < length knots - 1 - d)%nat -> kn knots j < kn knots (S j)).
+
+Lemma ip_clamped_simple knots d : ip_clamped knots d -> ip_simple_breaks knots d.
+Proof. intros [H1 [H2 [_ [_ H3]]]]. exact (conj H1 (conj H2 H3)). Qed.
+
+Lemma ip_skip_sum_ind (f : nat -> F) n m :
+  sumf (skipn m (map f (seq 0 n))) = sumn n (fun q => if (m <=? q)%nat then f q else 0).
+Proof.
+  rewrite ip_skipn_map_seq, (ip_sumF_sumn F K HK), map_length, seq_length. cbn [Nat.add].
+  rewrite (ip_sumn_ext F K (n - m) _ (fun r => f (m + r)%nat)).
+  2:{ intros r Hr. rewrite (ip_nth_map_seq f) by exact Hr. reflexivity. }
+  destruct (Nat.le_gt_cases m n) as [H|H].
+  - transitivity (sumn (m + (n - m)) (fun q => if (m <=? q)%nat then f q else 0)); [|f_equal; lia].
+    rewrite (ip_sumn_split F K HK).
+    rewrite (ip_sumn_ext F K m _ (fun _ => 0)).
+    2:{ intros q Hq. destruct (Nat.leb_spec m q); [lia|reflexivity]. }
+    rewrite (ip_sumn_zero F K HK).
+    rewrite (ip_sumn_ext F K (n - m) (fun j => if (m <=? m + j)%nat then f (m + j)%nat else 0) (fun r => f (m + r)%nat)).
+    + ring.
+    + intros r Hr. destruct (Nat.leb_spec m (m + r)); [reflexivity|lia].
+  - replace (n - m)%nat with 0%nat by lia. cbn [Sums.sumn]. symmetry.
+    rewrite (ip_sumn_ext F K n _ (fun _ => 0)); [apply (ip_sumn_zero F K HK)|].
+    intros q Hq. destruct (Nat.leb_spec m q); [lia|reflexivity].
+Qed.
+
+Section General.
+Variable knots : list F.
+Variable d : nat.
+Hypothesis Hsb : ip_simple_breaks knots d.
+Notation len := (length knots).
+Notation kx := (ip_kx knots).
+Notation a := (kn knots d).
+Notation b := (kn knots (len - 1 - d)).
+Notation NN := (len - d - 1)%nat.        (* ncells + d = number of pieces = span of b in the extended knots *)
+(** values of the degree p+1 basis at a (span p+1 of the extended knots) and at b (span ncells+d) *)
+Definition ip_Va (q : nat) : F := Nd kx a (S d) (S d) q.
+Definition ip_Vb (q : nat) : F := Nd kx b NN (S d) (NN - S d + q).
+
+Let Hs : sp_sorted F K knots := proj1 Hsb.
+Let Hlen : (2 * d + 1 < len)%nat := proj1 (proj2 Hsb).
+Let Hst : forall j, (d <= j < len - 1 - d)%nat -> kn knots j < kn knots (S j) := proj2 (proj2 Hsb).
+
+Lemma ip_gen_facts :
+  sp_sorted F K kx /\ length kx = (len + 2)%nat /\ a < b /\
+  (forall m, (d < m)%nat -> ~ kn knots m <= a) /\ (forall m, (d <= m < len - 1 - d)%nat -> ~ b <= kn knots m) /\
+  sp_span_ok F K kx (S d) /\ sp_span_ok F K kx NN.
+Proof.
+  assert (Hmono := sp_kn_mono F K HK knots Hs).
+  split; [apply ip_kx_sorted, Hs|]. split; [apply ip_kx_length|].
+  split; [apply (sp_lt_le_trans F K HK) with (kn knots (S d)); [apply Hst; lia|apply Hmono; lia]|].
+  split; [intros m Hm; apply ip_lt_not_le; apply (sp_lt_le_trans F K HK) with (kn knots (S d)); [apply Hst; lia|apply Hmono; lia]|].
+  split; [intros m Hm; apply ip_lt_not_le; apply (sp_lt_le_trans F K HK) with (kn knots (S m)); [apply Hst; lia|apply Hmono; lia]|].
+  split; unfold sp_span_ok; rewrite !ip_kx_kn.
+  - replace (S d - 1)%nat with d by lia. replace (S (S d) - 1)%nat with (S d) by lia. apply Hst. lia.
+  - replace (S NN - 1)%nat with (S (NN - 1)) by lia. apply Hst. lia.
+Qed.
+
+(** the cumulated value at the lower bound of piece i *)
+Lemma ip_piece_lower i : (i < NN)%nat ->
+  ip_cum F K kx d i (ip_max F K a (kn knots i)) = SpOk (sumn (S (S d)) (fun q => if (S i <=? q)%nat then ip_Va q else 0)).
+Proof.
+  intros Hi. destruct ip_gen_facts as [Hsx [Hlx [Hab [Hlo_lt [Hhi_lt [Hspa Hspb]]]]]].
+  assert (Hmono := sp_kn_mono F K HK knots Hs).
+  destruct (sp_leb_spec F K (kn knots i) a) as [Hle|Hnle].
+  - assert (Em : ip_max F K a (kn knots i) = a) by (unfold ip_max; unfold sp_le in Hle; rewrite Hle; reflexivity).
+    rewrite Em.
+    assert (Efs : sp_nu_find_span F K kx (S d) a = SpOk (S d)).
+    { apply ip_fs_low; [lia|]. rewrite ip_kx_kn. replace (S d - 1)%nat with d by lia. apply ip_le_refl. }
+    rewrite (ip_cum_eval kx d i _ (S d) Hsx Efs Hspa); try lia.
+    f_equal. rewrite ip_slice_from_nat by lia. replace (Z.to_nat (Z.of_nat i + 1 - (Z.of_nat (S d) - Z.of_nat (S d)))) with (S i) by lia.
+    rewrite ip_skip_sum_ind. apply (ip_sumn_ext F K). intros q Hq. unfold ip_Va. rewrite Nat.sub_diag. reflexivity.
+  - assert (Hid : (d < i)%nat).
+    { destruct (Nat.le_gt_cases i d) as [H|H]; [|exact H]. exfalso. apply Hnle. apply Hmono, H. }
+    rewrite (ip_max_right _ _ Hnle).
+    assert (Efs : sp_nu_find_span F K kx (S d) (kn knots i) = SpOk (S i)).
+    { replace (kn knots i) with (kn kx (S i)) by (rewrite ip_kx_kn; f_equal; lia).
+      apply ip_fs_knot; [exact Hsx|lia| | |]; rewrite ?ip_kx_kn, ?ip_kx_length.
+      - replace (S i - 1)%nat with i by lia. replace (S d - 1)%nat with d by lia. exact Hnle.
+      - replace (len + 2 - 1 - S d - 1)%nat with (len - 1 - d)%nat by lia. replace (S i - 1)%nat with i by lia. apply Hhi_lt. lia.
+      - replace (S i - 1)%nat with i by lia. replace (S (S i) - 1)%nat with (S i) by lia. apply Hst. lia. }
+    rewrite (ip_cum_eval kx d i _ (S i) Hsx Efs); try lia.
+    2:{ unfold sp_span_ok. rewrite !ip_kx_kn. replace (S i - 1)%nat with i by lia. replace (S (S i) - 1)%nat with (S i) by lia.
+        apply Hst. lia. }
+    f_equal. rewrite ip_slice_from_nat by lia. replace (Z.to_nat (Z.of_nat i + 1 - (Z.of_nat (S i) - Z.of_nat (S d)))) with (S d) by lia.
+    rewrite ip_suffix_zero.
+    + symmetry. rewrite (ip_sumn_ext F K _ _ (fun _ => 0)); [apply (ip_sumn_zero F K HK)|].
+      intros q Hq. destruct (Nat.leb_spec (S i) q); [lia|reflexivity].
+    + intros q Hq. apply (ip_Nd_left kx (kn knots i) (S i) (S i)); try lia.
+      intros j Hj. replace j with (S i) by lia. rewrite ip_kx_kn. f_equal. lia.
+Qed.
+
+(** the cumulated value at the upper bound of piece i *)
+Lemma ip_piece_upper i : (i < NN)%nat ->
+  ip_cum F K kx d i (ip_min F K b (kn knots (i + d + 1)))
+  = SpOk (sumn (S (S d)) (fun q => if (i + 2 + 2 * d + 1 - len <=? q)%nat then ip_Vb q else 0)).
+Proof.
+  intros Hi. destruct ip_gen_facts as [Hsx [Hlx [Hab [Hlo_lt [Hhi_lt [Hspa Hspb]]]]]].
+  assert (Hmono := sp_kn_mono F K HK knots Hs).
+  destruct (sp_leb_spec F K b (kn knots (i + d + 1))) as [Hle|Hnle].
+  - assert (Em : ip_min F K b (kn knots (i + d + 1)) = b) by (unfold ip_min; unfold sp_le in Hle; rewrite Hle; reflexivity).
+    rewrite Em.
+    assert (Him : (len - 1 - d <= i + d + 1)%nat).
+    { destruct (Nat.le_gt_cases (len - 1 - d) (i + d + 1)) as [H|H]; [exact H|]. exfalso. apply (Hhi_lt (i + d + 1)%nat); [lia|exact Hle]. }
+    assert (Efs : sp_nu_find_span F K kx (S d) b = SpOk NN).
+    { replace NN with (length kx - S d - 2)%nat by lia. apply ip_fs_high; [lia| |].
+      - rewrite ip_kx_kn. replace (S d - 1)%nat with d by lia. apply ip_lt_not_le, Hab.
+      - rewrite ip_kx_kn, ip_kx_length. replace (len + 2 - 1 - S d - 1)%nat with (len - 1 - d)%nat by lia. apply ip_le_refl. }
+    rewrite (ip_cum_eval kx d i _ NN Hsx Efs Hspb); try lia.
+    f_equal. rewrite ip_slice_from_nat by lia.
+    replace (Z.to_nat (Z.of_nat i + 1 - (Z.of_nat NN - Z.of_nat (S d)))) with (i + 2 + 2 * d + 1 - len)%nat by lia.
+    rewrite ip_skip_sum_ind. reflexivity.
+  - assert (Him : (i + d + 1 < len - 1 - d)%nat).
+    { destruct (Nat.lt_ge_cases (i + d + 1) (len - 1 - d)) as [H|H]; [exact H|]. exfalso. apply Hnle. apply Hmono, H. }
+    rewrite (ip_min_right _ _ Hnle).
+    assert (Efs : sp_nu_find_span F K kx (S d) (kn knots (i + d + 1)) = SpOk (i + d + 2)%nat).
+    { replace (kn knots (i + d + 1)) with (kn kx (i + d + 2)) by (rewrite ip_kx_kn; f_equal; lia).
+      apply ip_fs_knot; [exact Hsx|lia| | |]; rewrite ?ip_kx_kn, ?ip_kx_length.
+      - replace (i + d + 2 - 1)%nat with (i + d + 1)%nat by lia. replace (S d - 1)%nat with d by lia. apply Hlo_lt. lia.
+      - replace (len + 2 - 1 - S d - 1)%nat with (len - 1 - d)%nat by lia. replace (i + d + 2 - 1)%nat with (i + d + 1)%nat by lia. exact Hnle.
+      - replace (i + d + 2 - 1)%nat with (i + d + 1)%nat by lia. replace (S (i + d + 2) - 1)%nat with (S (i + d + 1)) by lia. apply Hst. lia. }
+    assert (Hspan : sp_span_ok F K kx (i + d + 2)).
+    { unfold sp_span_ok. rewrite !ip_kx_kn. replace (i + d + 2 - 1)%nat with (i + d + 1)%nat by lia.
+      replace (S (i + d + 2) - 1)%nat with (S (i + d + 1)) by lia. apply Hst. lia. }
+    rewrite (ip_cum_eval kx d i _ (i + d + 2)%nat Hsx Efs Hspan); try lia.
+    f_equal. rewrite ip_slice_from_nat by lia.
+    replace (Z.to_nat (Z.of_nat i + 1 - (Z.of_nat (i + d + 2) - Z.of_nat (S d)))) with 0%nat by lia. cbn [skipn].
+    rewrite (ip_A22_delta_sum_one kx (S d) _ (i + d + 2)%nat Hsx Hspan) by lia.
+    replace (i + 2 + 2 * d + 1 - len)%nat with 0%nat by lia. symmetry.
+    transitivity (sumf (map (fun q => Nd kx b NN (S d) (NN - S d + q)) (seq 0 (S (S d))))); [|apply ip_A22_delta_sum_one; try assumption; lia].
+    rewrite (ip_sumF_sumn F K HK), map_length, seq_length. apply (ip_sumn_ext F K). intros q Hq.
+    rewrite (ip_nth_map_seq (fun q => Nd kx b NN (S d) (NN - S d + q))) by exact Hq. reflexivity.
+Qed.
+
+(** every stored integral of the general branch: c_i (u_i - l_i) *)
+Theorem ip_piece i : (i < NN)%nat ->
+  ip_integral_general F K knots kx d i
+  = SpOk ((kn knots (i + d + 1) - kn knots i) * (1 / sp_ofnat F K (S d))
+          * (sumn (S (S d)) (fun q => if (i + 2 + 2 * d + 1 - len <=? q)%nat then ip_Vb q else 0)
+             - sumn (S (S d)) (fun q => if (S i <=? q)%nat then ip_Va q else 0))).
+Proof.
+  intros Hi. unfold ip_integral_general. cbv zeta.
+  destruct (Nat.ltb_spec (d + 2 + i) (length kx)) as [_|H]; [|rewrite ip_kx_length in H; lia].
+  rewrite !ip_kx_kn. replace (i + 1 - 1)%nat with i by lia. replace (d + 2 + i - 1)%nat with (i + d + 1)%nat by lia.
+  rewrite (ip_piece_lower i Hi). cbn [sp_bind]. rewrite (ip_piece_upper i Hi). cbn [sp_bind]. reflexivity.
+Qed.
+
+End General.
 End QuadTheory.
